@@ -13,7 +13,7 @@ from pw_verif.snap import Malformed
 
 PROP = "C18"
 LEVEL = "exploration"
-BUDGET = {"quick": 480, "thorough": 6000}
+BUDGET = {"quick": 960, "thorough": 9000}
 MIN_PER_SHARD = 10
 RULE = (
     "Metamorphic twins. Colliding world: 2-3 envelopes whose Fock subsystems have the same cut-off and hold the "
